@@ -14,6 +14,7 @@ pub fn text() -> BoxedStrategy<String> {
             "VAR=value", "==", "\u{2028}", "\u{85}x", "a\u{0}b", "日本語", "ß=ü", "-1.0", "test-pkg-", "a-b-1.0nb2",
         ]).prop_map(String::from),
         2 => "[ -~]{0,24}",
+        1 => "[ -~]{100,700}",
         1 => prop::collection::vec(any::<char>().prop_filter("no CR/LF", |c| *c != '\r' && *c != '\n'), 0..8)
             .prop_map(|v| v.into_iter().collect::<String>()),
     ]
@@ -43,7 +44,8 @@ pub fn value(kind: Kind, txt: fn() -> BoxedStrategy<String>) -> BoxedStrategy<Va
     match kind {
         Kind::Scalar => txt().prop_map(Val::S).boxed(),
         Kind::Int => int().prop_map(Val::I).boxed(),
-        Kind::List => prop::collection::vec(txt(), 1..=4).prop_map(Val::L).boxed(),
+        // one list in twenty-five is long (dozens of lines)
+        Kind::List => prop_oneof![24 => prop::collection::vec(txt(), 1..=4), 1 => prop::collection::vec(txt(), 20..90)].prop_map(Val::L).boxed(),
     }
 }
 
